@@ -68,9 +68,26 @@ theorem zmodn_inv_spec_wide (c : Ctx) (hc : Valid c) (hn : c.n < 2 ^ (64 * 8 - 7
   rw [e] at key
   exact key
 
-/-- the size hypotheses are satisfiable above the old bound `2^500` (a `Valid` context exists for every odd
-modulus of at most 511 bits: C07) -/
-example : ∃ n : Nat, n < 2 ^ (64 * 8 - 7) ∧ ¬ n < 2 ^ (64 * 8 - 12) :=
-  ⟨2 ^ 500, Nat.pow_lt_pow_right (by decide) (by decide), Nat.lt_irrefl _⟩
+set_option exponentiation.threshold 600 in
+/-- the hypotheses are satisfiable above the old bound `2^500` by a REAL Montgomery context: the odd modulus
+`n = 2^504 + 1` (`ZmodN::new` returns a `Valid` context for it: C07 `new_spec`) lies in `[2^500, 2^505)`, and
+`x = 2^504 ≡ -1` is a unit of the same size -/
+example : ∃ c x, Valid c ∧ c.n = 2 ^ 504 + 1 ∧ c.n % 2 = 1 ∧ c.n < 2 ^ (64 * 8 - 7) ∧ ¬ c.n < 2 ^ (64 * 8 - 12) ∧
+    val x < 2 ^ (64 * 8 - 7) ∧ ¬ val x < 2 ^ (64 * 8 - 12) ∧ Nat.gcd (val x) c.n = 1 := by
+  obtain ⟨c, _, h2, h3, _⟩ := Ymq.C07.new_spec (2 ^ 504 + 1) (by decide) (by decide)
+  refine ⟨c, ofNat 8 (2 ^ 504), h2, h3, ?_⟩
+  rw [h3]
+  decide +kernel
+
+set_option exponentiation.threshold 600 in
+/-- … and on it the theorem yields the inverse branch (the `None` branch is excluded: the operand is a unit) -/
+example : ∃ c x r, Valid c ∧ c.n = 2 ^ 504 + 1 ∧ ZmodN.inv invModC09 c x = some (some r) ∧ val r < c.n ∧
+    val r * val x % c.n = Limbs.W ^ c.k * Limbs.W ^ c.k % c.n := by
+  obtain ⟨c, _, h2, h3, _⟩ := Ymq.C07.new_spec (2 ^ 504 + 1) (by decide) (by decide)
+  have hx : val (ofNat 8 (2 ^ 504)) < 2 ^ (64 * 8 - 7) ∧ Nat.gcd (val (ofNat 8 (2 ^ 504))) (2 ^ 504 + 1) = 1 := by
+    decide +kernel
+  rcases zmodn_inv_spec_wide c h2 (by rw [h3]; decide +kernel) (ofNat 8 (2 ^ 504)) hx.1 with ⟨hg, _⟩ | ⟨r, hr, hlt, hmul, _⟩
+  · rw [h3] at hg; exact absurd hx.2 hg
+  · exact ⟨c, _, r, h2, h3, hr, hlt, hmul⟩
 
 end Ymq.C09
